@@ -401,7 +401,7 @@ mod proofs {
     scan_proof!(b_scan_g64, 64, 11, true);
     scan_proof!(b_scan_g128, 128, 11, true);
     scan_proof!(b_scan_g256, 256, 11, true);
-    scan_proof!(b_scan_g512, 512, 11, true);
+    // (512 buckets with every aligned start index: out of memory at 24 GB after 45 min - not registered)
 
     // ------------------------------------------------------------------ bucket write + bitmap
     /// write_key_piece_offset(n, idx, off): bucket idx = off, its bitmap bit = (off != 0), every
